@@ -47,6 +47,9 @@ INDEXES = {
     "strings": lambda n: ["r%d" % i for i in range(n)],
     "nonunique": lambda n: [0, 0, 1, 1][:n],
     "unsorted": lambda n: [2, 0, 1, 3][:n] if n <= 4 else list(range(n))[::-1],
+    # RangeIndex objects whose labels are not the positions
+    "range-offset": lambda n: pd.RangeIndex(4, 4 + n),
+    "range-step": lambda n: pd.RangeIndex(0, 2 * n, 2),
 }
 DROPSETS = {"none": None, "empty": (), "{0}": (0,), "{0,2}": (0, 2), "{1}": (1,)}
 AVALS = [1.5, -2.0, 3.25, 7.0]
